@@ -18,6 +18,7 @@ statement).  Monitors, evaluated after every operation of every history:
 import itertools
 import os
 import signal
+import time
 
 import falcon
 import falcon.asgi
@@ -25,6 +26,7 @@ import falcon.asgi
 from vlib.drivers import asgi as A
 from vlib.drivers import wsgi as W
 from vlib.models.c07_stream import BodyModel, asgi_wire
+from vlib.verdict import StopCheck
 
 LEVEL = 'exploration'
 SHARDS = {'quick': 4, 'thorough': 16}
@@ -57,8 +59,10 @@ def _on_alarm(signum, frame):
 
 
 def guarded(rec, fn, witness_fn):
-    """A case normally takes < 1 ms; one that does not finish within 3 s and again not within 30 s is a runaway."""
-    for limit in (3, 30):
+    """A case normally takes < 1 ms; one that does not finish within 3 s and again not within 12 s is a runaway
+    (logical criterion: the stream keeps polling a source that has nothing more to give).  The shard stops there,
+    because every similar case would spin as well."""
+    for limit in (3, 12):
         signal.signal(signal.SIGALRM, _on_alarm)
         signal.setitimer(signal.ITIMER_REAL, limit)
         try:
@@ -69,7 +73,7 @@ def guarded(rec, fn, witness_fn):
         finally:
             signal.setitimer(signal.ITIMER_REAL, 0)
     rec.violation('runaway-no-termination', witness_fn())
-    return False
+    raise StopCheck()
 
 
 # ------------------------------------------------------------------ WSGI side
@@ -511,6 +515,12 @@ def _asgi_case(rec, cfg, hist):
     # ---- liveness
     rec.count('mon.asgi.liveness')
     done = [e for e in ctx.log if e is not None]
+    if isinstance(res.exc, Runaway):
+        # the alarm went off inside the coroutine (asyncio stores BaseExceptions in the task): the stream spins
+        # without ever yielding to the loop, e.g. polling receive() after an http.disconnect
+        rec.violation('runaway-no-termination', dict(wit0, step=len(done), op=hist[min(len(done), len(hist) - 1)],
+                                                     receive_calls=res.receive_calls))
+        raise StopCheck()
     if res.outcome != 'done' or res.status != 200 or len(done) != len(hist) or res.problems:
         i = len(done)
         if res.outcome in ('blocked', 'steps') and i < len(hist):
@@ -681,6 +691,8 @@ W_TRAILING = b'XY\nZ'
 
 A_OPS = [('read', None), ('read', -1), ('read', 0), ('read', 1), ('read', 2), ('read', 100), ('readall',),
          ('iter',), ('iterk', 1, 'exhaust'), ('iterk', 1, 'close'), ('exhaust',), ('close',)]
+A_OPS_PAIRS = [('read', None), ('read', 0), ('read', 1), ('read', 2), ('read', 100), ('iter',), ('iterk', 1, 'exhaust'),
+               ('exhaust',), ('close',)]
 A_OPS_SMALL = [('read', 1), ('read', 2), ('read', 3), ('readall',), ('iter',), ('exhaust',), ('iterk', 2, 'exhaust')]
 A_BODIES = [b'', b'a', b'ab\n', b'abcde']
 
@@ -953,19 +965,22 @@ def run(rec):
     for body in A_BODIES:
         comps = compositions(len(body), with_empty=True)
         if len(body) >= 5:
-            comps = comps[::3] if quick else comps
-        small_hists = [h for h in itertools.product(A_OPS_SMALL, repeat=3) if legal_asgi(h)]
+            comps = comps[::3] if quick else comps[::2]
+        hs = [()] + [(o,) for o in A_OPS]
+        hs += list(itertools.product(A_OPS_PAIRS if quick else A_OPS, repeat=2))
+        if not quick:
+            hs += list(itertools.product(A_OPS_PAIRS, repeat=3))
+        legal = [h for h in hs if legal_asgi(h)]
+        n_illegal += len(hs) - len(legal)
+        small_hists = [h for h in itertools.product(A_OPS_SMALL, repeat=HA + 1) if legal_asgi(h)]
         for ci, cfg in enumerate(asgi_configs(body, comps)):
-            for h in histories(A_OPS, HA):
-                if not legal_asgi(h):
-                    n_illegal += 1
-                    continue
+            for h in legal:
                 idx += 1
                 if idx % rec.nshards != rec.shard:
                     continue
                 asgi_case(rec, cfg, h)
                 rec.case(('a', cfg, h) if nontrivial(h) else None)
-            if quick and ci % 4 == 0:
+            if ci % (8 if quick else 16) == 0:
                 for h in small_hists:
                     idx += 1
                     if idx % rec.nshards != rec.shard:
@@ -974,14 +989,21 @@ def run(rec):
                     rec.case(('a', cfg, h))
     rec.exhaustive = True
     if rec.shard == 0:
-        rec.note('exhaustive within bounds: WSGI %d bodies, histories <= %d over %d op shapes (+ length %d over %d shapes); '
-                 'ASGI %d bodies, all chunkings, histories <= %d over %d op shapes; %d histories skipped as outside the '
-                 'documented iteration/read rule' % (len(W_BODIES), HW, len(W_OPS), HW + 1, len(W_OPS_SMALL),
-                                                    len(A_BODIES), HA, len(A_OPS), n_illegal))
+        rec.note('exhaustive within bounds: WSGI %d bodies x Content-Length classes x server styles %r, histories <= %d over %d '
+                 'op shapes + length %d over %d shapes; ASGI %d bodies, all chunkings (every %s for the 5-byte body) x all '
+                 'script endings x Content-Length classes, single operations over %d shapes, pairs over %d shapes%s, '
+                 'length %d over %d shapes on every %dth script; %d history shapes skipped as outside the documented '
+                 'iteration/read rule' % (len(W_BODIES), shorts, HW, len(W_OPS), HW + 1, len(W_OPS_SMALL), len(A_BODIES),
+                                          'third' if quick else 'second', len(A_OPS),
+                                          len(A_OPS_PAIRS if quick else A_OPS),
+                                          '' if quick else ', triples over %d shapes' % len(A_OPS_PAIRS),
+                                          HA + 1, len(A_OPS_SMALL), 8 if quick else 16, n_illegal))
     # ---------------- random
     rng = rec.rng
     k = 0
-    while rec.budget_ok(0.9):
+    t_rand = time.monotonic()
+    rand_budget = max(rec.budget_s * 0.15, rec.time_left() * 0.9)     # a guaranteed share, whatever the machine load
+    while time.monotonic() - t_rand < rand_budget:
         for _ in range(25):
             cfg, h = random_wsgi(rng)
             wsgi_case(rec, cfg, h)
